@@ -108,7 +108,7 @@ class Theory:
 
     def base_lemma_proofs(self):
         """structural induction proofs of the list lemmas every theory uses"""
-        from .core import _mk_solver, P_BIG
+        from .core import check_retry, P_BIG
         VL = self.VL
         b, c = z3.Consts('ind!b ind!c', VL)
         x, r = z3.Const('ind!x', self.V), z3.Const('ind!r', VL)
@@ -123,11 +123,7 @@ class Theory:
             def thunk(stmt=stmt):
                 res = []
                 for tag, hyps, goal in (('base', [], stmt(VL.nil)), ('step', [stmt(r)], stmt(VL.cons(x, r)))):
-                    s = _mk_solver(P_BIG)
-                    for h in hyps:
-                        s.add(h)
-                    s.add(z3.Not(goal))
-                    res.append((tag, str(s.check())))
+                    res.append((tag, str(check_retry(list(hyps) + [z3.Not(goal)], P_BIG))))
                 return res
             out.append(('list lemma: ' + name, thunk))
         return out
